@@ -35,6 +35,21 @@ type sinkRec struct {
 	mu    sync.Mutex
 	clock *simnet.Clock
 	Calls []sinkCall
+	// gate, when set, makes every Printf hang after it has been handed its record, until the gate is closed (a log
+	// destination whose write does not return)
+	gate chan struct{}
+}
+
+func (s *sinkRec) setGate(g chan struct{}) {
+	s.mu.Lock()
+	s.gate = g
+	s.mu.Unlock()
+}
+
+func (s *sinkRec) snapshot() []sinkCall {
+	s.mu.Lock()
+	defer s.mu.Unlock()
+	return append([]sinkCall{}, s.Calls...)
 }
 
 type sinkCall struct {
@@ -50,7 +65,11 @@ func (s *sinkRec) Printf(format string, args ...interface{}) {
 		seq = s.clock.Tick()
 	}
 	s.Calls = append(s.Calls, sinkCall{Seq: seq, Format: format, Args: args})
+	g := s.gate
 	s.mu.Unlock()
+	if g != nil {
+		<-g
+	}
 }
 
 func (s *sinkRec) take() []sinkCall {
